@@ -613,12 +613,18 @@ def r9(R):
     mr = pyfacts.module(R, RG)
     fn = mr.func("refinegrains.fit")
     sets = [a for a in ast.walk(fn) if isinstance(a, ast.Assign) and src(a.targets[0]) == "self.recompute_xlylzl" and isinstance(a.value, ast.Constant) and a.value.value is True]
-    R.shape(len(sets) >= 1, "C01.R9", RG, "refinegrains.fit", "the statement self.recompute_xlylzl = True")
+    # the same decision as an expression:  self.recompute_xlylzl = any(<n in / not in [...]> for n in names)
+    anys = [a for a in ast.walk(fn) if isinstance(a, ast.Assign) and src(a.targets[0]) == "self.recompute_xlylzl" and isinstance(a.value, ast.Call)
+            and pyfacts.dotted(a.value.func) == "any" and len(a.value.args) == 1 and isinstance(a.value.args[0], (ast.GeneratorExp, ast.ListComp))
+            and isinstance(a.value.args[0].elt, ast.Compare) and len(a.value.args[0].elt.ops) == 1 and isinstance(a.value.args[0].elt.ops[0], (ast.In, ast.NotIn))]
+    R.shape(len(sets) + len(anys) >= 1, "C01.R9", RG, "refinegrains.fit", "the statement self.recompute_xlylzl = True")
     cfg = pyfacts.PyCFG(fn)
     n = 0
-    for a in sets:
+    for a in sets + anys:
         gs = cfg.guards(cfg.node_of(a))
         tests = [(t, pol) for t, pol in gs if isinstance(t, ast.Compare) and len(t.ops) == 1 and isinstance(t.ops[0], (ast.In, ast.NotIn))]
+        if a in anys:
+            tests = tests + [(a.value.args[0].elt, True)]
         if not tests:
             n += 1
             R.inst("C01.R9", "%s:refinegrains.fit recompute set unconditionally" % RG)
